@@ -5,7 +5,7 @@
     length of calls, writes and pipelined requests. *)
 From Coq Require Import List NArith Bool.
 From TwLib Require Import HttpRespBytes.
-From C20 Require Import Model ProofsParse ProofsTable Proofs ProofsMain.
+From C20 Require Import Model Gen GenCheck ProofsParse ProofsTable Proofs ProofsMain.
 Import ListNotations.
 Local Open Scope N_scope.
 
@@ -92,6 +92,12 @@ Theorem headers_exactly_those_set : forall (responses : N -> bytes) c s name,
      forall k', beq k' k = false -> tbl_get k' (s_tbl s') = tbl_get k' (s_tbl s)).
 Proof. exact set_add_exact. Qed.
 Print Assumptions headers_exactly_those_set.
+
+(** T-tie: the byte table of twisted.web._abnf._istoken, regenerated from the source on every run (translate/c20.py
+    refuses any other shape of that function), is exactly the model's tchar predicate *)
+Theorem token_table_of_the_code_is_tchar : forall c, is_tchar c = existsb (N.eqb c) istoken_table.
+Proof. exact istoken_table_is_tchar. Qed.
+Print Assumptions token_table_of_the_code_is_tchar.
 
 (** sanitisation: no CR / LF survives in a header value, and no CR / LF / ";" in a cookie component; an accepted
     cookie is free of CR / LF as a whole; sanitising is idempotent *)
